@@ -3,7 +3,8 @@
    Model: Model/BasisEval.v (transcription of basis_eval.pyx + BSplineBasis.evaluate).
    Reference: Spec/BSpline.v (B), Spec/Deriv.v (dB), Model/BasisDef.v (ref_row). *)
 From Coq Require Import List Arith Reals Lra Lia Bool ZArith QArith Qreals.
-From SplipyModel Require Import Spec.BSpline Spec.Deriv Model.Num Model.BasisDef Model.BasisEval Model.Knots
+From Coquelicot Require Import Coquelicot.
+From SplipyModel Require Import Spec.BSpline Spec.Deriv Spec.DerivAnalytic Model.Num Model.BasisDef Model.BasisEval Model.Knots
   Proofs.Bridge Proofs.EvalCorrect Proofs.SpanCorrect Proofs.EvaluateSpec Proofs.EvalConsequences Proofs.KnotList
   Transfer.ParamBase Transfer.ParamBasis Transfer.ParamKnots Extract.Exec.
 Import ListNotations.
@@ -76,6 +77,13 @@ Theorem C01_high_derivative_zero (k : list R) (p per1 : nat) :
   nth c (ref_row side k p per1 d t) 0 = 0.
 Proof. exact (ref_row_high k p per1). Qed.
 Print Assumptions C01_high_derivative_zero.
+
+(* 4b. "derivative" is meant analytically: inside every open knot span, for every order r, the
+       (r+1)-st derivative recurrence is the derivative (Coquelicot is_derive) of the r-th; dB 0 = B *)
+Theorem C01_recurrence_is_derivative (k : nat -> R) : sorted k -> forall m t, k m < t < k (S m) ->
+  forall r q i, is_derive (fun s => dB true k r q i s) t (dB true k (S r) q i t).
+Proof. intros Hk m t H. exact (dB_is_derivative k Hk m t H). Qed.
+Print Assumptions C01_recurrence_is_derivative.
 
 (* 5. the *executed* (extracted, Q) instance is the R instance the theorems are about *)
 Theorem C01_executed_is_proved (k : list Q) p per1 (tol : Q) d fr (ts : list Q) :
